@@ -4,6 +4,8 @@
 From Coq Require Import ZArith List String Bool Sorting.Sorted.
 From PKGen Require Import Enums AttrRuleTable Versions VersionFields.
 From PK Require Import Version.Version Version.Fields Version.Spec Version.VersionProofs Version.SpecProofs.
+From PK Require Codec.Schema Version.SchemaFields.
+From PKGen Require Schemas.
 Import ListNotations.
 Open Scope Z_scope.
 Open Scope string_scope.
@@ -170,24 +172,21 @@ Theorem attr_gated_by_spec : forall v n, ver_ltb v (spec_attr_min n) = true -> a
 Proof. exact attr_gated_spec. Qed.
 Print Assumptions attr_gated_by_spec.
 
-(* attribute names used as Locate filters.  Full statement (what the property demands): *)
-Definition attr_gated_locate_statement : Prop :=
-  forall v names n, In v supported_versions -> In n names -> ver_ltb v (spec_attr_min n) = true ->
-    locate_filter_gate v names <> None.
-(* false on the code as it is: _process_locate never consults is_attribute_supported (known finding
-   C16-locate-attr-not-gated; witness: KMIP 1.0, filter "Sensitive") *)
-Theorem attr_gated_locate_refuted : exists v n, In v supported_versions /\ ver_ltb v (spec_attr_min n) = true
-  /\ locate_filter_gate v [n] = None.
-Proof. exact locate_filter_not_gated. Qed.
-Print Assumptions attr_gated_locate_refuted.
-(* it holds for a handler that does consult it (the extra hypothesis excludes exactly today's _process_locate) *)
-Theorem attr_gated_locate_partial : forall v names n, site_checks_supported "_process_locate" = true ->
-  In n names -> ver_ltb v (spec_attr_min n) = true -> locate_filter_gate v names <> None.
-Proof. exact locate_filter_gated_if_checked. Qed.
-Print Assumptions attr_gated_locate_partial.
-Example attr_gated_locate_partial_hyp : site_checks_supported "_process_create" = true /\ In "Sensitive" ["Name"; "Sensitive"]
-  /\ ver_ltb (1, 3) (spec_attr_min "Sensitive") = true.
+(* attribute names used as Locate filters (full statement; it was refuted before fix 1a2a215, finding
+   C16-locate-attr-not-gated): a filter on an attribute introduced after v makes the request fail at the gate, and
+   whatever passes the gate consists of attributes v has *)
+Theorem attr_gated_locate : forall v names n,
+  In n names -> ver_ltb v (spec_attr_min n) = true ->
+  exists m, locate_filter_gate v names = Some m /\ In m names /\ attr_supported v m = false.
+Proof. exact locate_filter_gated. Qed.
+Print Assumptions attr_gated_locate.
+Example attr_gated_locate_hyp : In "Sensitive" ["Name"; "Sensitive"] /\ ver_ltb (1, 0) (spec_attr_min "Sensitive") = true
+  /\ locate_filter_gate (1, 0) ["Name"; "Sensitive"] = Some "Sensitive" /\ locate_filter_gate (1, 4) ["Name"; "Sensitive"] = None.
 Proof. repeat split; vm_compute; tauto. Qed.
+Theorem attr_gated_locate_passed : forall v names, locate_filter_gate v names = None ->
+  forall n, In n names -> attr_supported v n = true.
+Proof. exact locate_filter_passes. Qed.
+Print Assumptions attr_gated_locate_passed.
 
 (* ---------------------------------------------------------------- message fields *)
 (* for every (class, tag, v0) of the specification table and every KMIPVersion v: the read method of the class reaches
@@ -213,7 +212,26 @@ Theorem spec_tables_agree :
 Proof. exact tables_agree. Qed.
 Print Assumptions spec_tables_agree.
 
-(* statement kept visible, not proved here: field gating over the full regenerated schemas of the codec
-   (PKGen.Schemas, produced by the C01/C02 translator) - `wr` never emits and `rd` never accepts an item whose guard
-   excludes v.  The theorems above cover the version blocks of the read/write methods extracted by gen_versions.py;
-   the byte-level behaviour is tied by the field x version correspondence of harness/c16_fields.py. *)
+(* ---------------------------------------------------------------- message fields, byte-level codec schemas *)
+(* PK.Codec.Schema's `wr` and `rd` run, for a structure of class k under version v, over `filter (active v)` of the
+   class's items only (by construction, see Schema.v).  For every class k of the regenerated PKGen.Schemas.E, every
+   version v and every item the reader or the writer considers: if the item carries a tag of the specification table,
+   then v is at least the version that introduced the field.  (Versions are 10*major+minor in the schemas.) *)
+Theorem field_gated_schemas : forall c t v0 z (k : Codec.Schema.cls) v (it : Codec.Schema.item),
+  In (c, t, v0) SpecFieldVersions -> SchemaFields.tag_value t = Some z -> In k (Codec.Schema.e_classes Schemas.E) ->
+  (In it (filter (Codec.Schema.active v) (Codec.Schema.c_rd k)) \/ In it (filter (Codec.Schema.active v) (Codec.Schema.c_wr k))) ->
+  Codec.Schema.i_tag it = z -> SchemaFields.v10 v0 <= v.
+Proof. exact SchemaFields.field_gated_schemas_lemma. Qed.
+Print Assumptions field_gated_schemas.
+(* the guard of such an item is exactly the specification's version and does not close before 2.0 *)
+Theorem spec_field_versions_respected : forall c t v0 z (k : Codec.Schema.cls) (it : Codec.Schema.item),
+  In (c, t, v0) SpecFieldVersions -> SchemaFields.tag_value t = Some z -> In k (Codec.Schema.e_classes Schemas.E) ->
+  In it (SchemaFields.items_of k) -> Codec.Schema.i_tag it = z ->
+  Codec.Schema.i_lo it = SchemaFields.v10 v0 /\ SchemaFields.v10 (2, 0) < Codec.Schema.i_hi it.
+Proof. exact SchemaFields.spec_rows_respected. Qed.
+Print Assumptions spec_field_versions_respected.
+(* non-vacuity: at least 8 (class, tag) rows of the table occur in the schemas today (the remaining classes are
+   hand-modelled by the codec builder and excluded from Schemas.E; field_gated above covers them) *)
+Example field_gated_schemas_hyp : Nat.leb 8 (List.length SchemaFields.schema_covered_rows) = true
+  /\ SchemaFields.schema_class_minver_ok = true.
+Proof. exact (conj SchemaFields.schema_rows_nonvacuous SchemaFields.schema_class_minver_ok_true). Qed.
